@@ -89,8 +89,8 @@ Fixpoint walk (fuel : nat) (h : ehdr) (off : nat) (l : list N) : option (list (N
       | S f =>
           match read_ehdr h l with
           | Some (ty, len) =>
-              if Nat.eqb len 0 || Nat.ltb (length l) len then None
-              else match walk f h (off + len) (skipn len l) with
+              if Nat.eqb len 0 || negb (Nat.eqb (length (firstn len l)) len) then None   (* the entry must fit *)
+              else match walk f h (len + off) (skipn len l) with      (* len + off: unary addition recurses on the small operand *)
                    | Some r => Some ((ty, off, len) :: r)
                    | None => None
                    end
